@@ -2307,7 +2307,7 @@ class Interp:
         mod = fn.module
         if id(fn.node) in mod.qualname_of:
             qual = f"{mod.name}::{mod.qualname_of[id(fn.node)]}"
-        if qual is not None and qual not in self.summaries and self.summaries and "." not in qual.split("::")[1]:
+        if qual is not None and qual not in self.summaries and self.summaries:
             # a module-level function that other modules re-export under the same name (moved to a new module, old names kept
             # importable): a summary registered under any of those names is a summary of this function
             for alias in self._reexported_as(mod.name, qual.split("::")[1]):
@@ -2374,6 +2374,21 @@ class Interp:
                 for local, imp in m_.imports.items():
                     if imp[0] == "name":
                         cache.setdefault((imp[1], imp[2]), []).append(f"{m_.name}::{local}")
+                # module-level aliases kept for compatibility:  wait = BaseDeferred.wait_for ;  old_name = new_name
+                for st in getattr(m_, "tree", ast.Module([], [])).body:
+                    if isinstance(st, ast.Assign) and len(st.targets) == 1 and isinstance(st.targets[0], ast.Name):
+                        v = st.value
+                        if isinstance(v, ast.Attribute) and isinstance(v.value, ast.Name):
+                            cache.setdefault((m_.name, f"{v.value.id}.{v.attr}"), []).append(f"{m_.name}::{st.targets[0].id}")
+                        elif isinstance(v, ast.Name):
+                            cache.setdefault((m_.name, v.id), []).append(f"{m_.name}::{st.targets[0].id}")
+            # aliases of aliases (imported under the old name elsewhere)
+            for (dm, nm), als in list(cache.items()):
+                for a_ in list(als):
+                    am, _, an = a_.partition("::")
+                    for b_ in cache.get((am, an), []):
+                        if b_ not in als:
+                            als.append(b_)
         return cache.get((defmod, name), [])
 
     def positional(self, fn, args, kwargs):
